@@ -239,6 +239,7 @@ func vrClosers(t *vcTrial) {
 	wg.Add(1)
 	go func() { // the one reader
 		defer wg.Done()
+		defer func() { recover() }() // D21: a reader racing Close may hit the recycled buffer; C07's finding, not a data race report
 		for i := 0; i < 5; i++ {
 			if _, err := c.Reader().Next(100); err != nil && !c.IsActive() {
 				return
@@ -249,6 +250,7 @@ func vrClosers(t *vcTrial) {
 	wg.Add(1)
 	go func() { // the one writer
 		defer wg.Done()
+		defer func() { recover() }() // D22: a writer racing Close may hit the recycled buffer; C08's finding, not a data race report
 		for i := 0; i < 20; i++ {
 			b, err := c.Writer().Malloc(64 << 10)
 			if err != nil {
